@@ -61,6 +61,8 @@ var xlWhitelist = []xlFunc{
 	{Pkg: "patch", Recv: "Path", Name: "Parent", Lean: "PathParent"},
 	{Pkg: "patch", Recv: "Path", Name: "LastSegment", Lean: "PathLastSegment"},
 	{Pkg: "patch", Recv: "Path", Name: "String", Lean: "PathString", Fuel: []string{"len(rps)+1"}},
+	{Pkg: "patch", Name: "ParsePath", Lean: "ParsePath", Fuel: []string{"len(rps)+1"}},
+	{Pkg: "patch", Name: "MustParsePath", Lean: "MustParsePath"},
 	{Pkg: "utils", Name: "ParseListPathComponent", Lean: "ParseListPathComponent", Fuel: []string{"len(path)+1"}},
 	{Pkg: "pipeline", Name: "strTruncIfNeeded", Lean: "strTruncIfNeeded"},
 	{Pkg: "pipeline", Name: "safeStrDeref", Lean: "safeStrDeref"},
